@@ -706,6 +706,43 @@ func Dense(eco, base string, r *rand.Rand) []string {
 	return out
 }
 
+// OfLength returns candidate spellings of exactly n bytes built from base by stretching one part (a numeric
+// component with leading zeros or more digits, a qualifier word, build metadata, a separator-joined tail); which
+// of them the parser accepts is observed by the caller.
+func OfLength(base string, n int) []string {
+	k := n - len(base)
+	if k <= 0 {
+		return nil
+	}
+	var out []string
+	rep := func(ch string, m int) string {
+		if m < 0 {
+			m = 0
+		}
+		return strings.Repeat(ch, m)
+	}
+	out = append(out,
+		base+rep("0", k),           // more digits on the last number
+		rep("0", k)+base,           // leading zeros on the first number
+		base+"."+rep("1", k-1),     // one more long component
+		base+"-"+rep("a", k-1),     // long qualifier
+		base+"+"+rep("b", k-1),     // long build metadata / local label
+		base+"a"+rep("z", k-1),     // glued letters
+		base+"_p"+rep("1", k-2),    // alpine / gentoo style suffix number
+		base+"~"+rep("1", k-1),     // debian / rpm tilde tail
+		base+"-1."+rep("2", k-3),   // revision / release tail
+		base+".post"+rep("1", k-5), // pypi
+		base+"-rc."+rep("1", k-4),
+	)
+	var ok []string
+	for _, s := range out {
+		if len(s) == n {
+			ok = append(ok, s)
+		}
+	}
+	return ok
+}
+
 // Cluster emits a base and 20-60 near-identical neighbours (order bugs live between neighbours).
 func Cluster(eco string, r *rand.Rand) []string {
 	ar := Arity[eco]
@@ -781,6 +818,23 @@ func Cluster(eco string, r *rand.Rand) []string {
 	}
 	if chance(r, 1, 6) {
 		out = append(out, Dense(eco, base, r)...)
+	}
+	// length family: spellings whose LENGTH is a number literal of the sources (buffer sizes, length guards, fast-path
+	// thresholds) and its neighbours
+	if chance(r, 1, 8) {
+		for tries := 0; tries < 6; tries++ {
+			n, err := strconv.Atoi(EcoNum(eco, r))
+			if tries >= 3 {
+				n, err = strconv.Atoi(DictNum(r))
+			}
+			if err != nil || n < 12 || n > 1100 {
+				continue
+			}
+			for _, l := range []int{n - 1, n, n + 1} {
+				out = append(out, OfLength(base, l)...)
+			}
+			break
+		}
 	}
 	// source-dictionary family: numbers and words that are literals of THIS ecosystem's package, in the number
 	// slot of every marker, as a component, and as a qualifier word
